@@ -70,4 +70,15 @@ class VRegChain(Component):
     def up_r2(): s.out <<= s.r
 
 
-DESIGNS = {'VInc': VInc, 'VReg': VReg, 'VStruct': VStruct, 'VHier': VHier, 'VRegChain': VRegChain}
+class VMany(Component):
+  """more nets than there are one-character VCD identifiers (94); only a few of the inputs are driven"""
+  def construct(s):
+    n = 100
+    s.in_ = [InPort(3) for _ in range(n)]; s.out = [OutPort(3) for _ in range(n)]
+    for i in range(n): s.out[i] //= s.in_[i]
+
+
+# ports driven symbolically (default: every top-level input)
+SYMBOLIC_PORTS = {'VMany': ['s.in_[0]', 's.in_[97]']}
+
+DESIGNS = {'VMany': VMany, 'VInc': VInc, 'VReg': VReg, 'VStruct': VStruct, 'VHier': VHier, 'VRegChain': VRegChain}
